@@ -53,7 +53,10 @@ def failed(rc, out):
 def confirm(a):
     src = os.path.abspath(a.src)
     patch = os.path.join(src, 'patch.diff')
-    demos = [p for p in (os.path.join(src, 'demo.cpp'), os.path.join(src, 'demo.py')) if os.path.exists(p)]
+    # a demo.py beside a demo.cpp is the orchestrator (it builds and runs the driver itself)
+    demos = [p for p in (os.path.join(src, 'demo.py'), os.path.join(src, 'demo.cpp')) if os.path.exists(p)]
+    if len(demos) == 2 and 'demo.cpp' not in open(demos[0]).read():
+        demos.reverse()
     if not os.path.exists(patch) or not demos:
         print('missing patch.diff or demo in', src)
         return 2
@@ -104,7 +107,8 @@ def confirm(a):
         dst = os.path.join(SEEDED, a.id)
         os.makedirs(dst, exist_ok=True)
         shutil.copy(patch, os.path.join(dst, 'patch.diff'))
-        shutil.copy(demo, os.path.join(dst, os.path.basename(demo)))
+        for extra in glob.glob(os.path.join(src, '*.cpp')) + glob.glob(os.path.join(src, '*.py')):
+            shutil.copy(extra, os.path.join(dst, os.path.basename(extra)))
         if os.path.exists(os.path.join(src, 'README.md')):
             shutil.copy(os.path.join(src, 'README.md'), os.path.join(dst, 'NOTES.md'))
         meta = {
